@@ -133,9 +133,9 @@ def _gen_type(p, rng, depth, elem_pool=None):
                 members.append(m.named(p, nm))
                 descs.append((nm, m.desc))
                 labels.append(f"{nm}:{m.label}")
-        kind = "plain"
-        if descs and descs[-1][1][0] in ("uarray",) or (descs[-1][1][0] == "bytes" and descs[-1][1][1] == -1):
-            kind = "rest"
+        # a structure consumes the rest of the buffer when its last member does - at any nesting depth (a struct ending in a struct
+        # ending in n_bytes(-1) / T[None]); such a type may only stand alone or last, never as an array element
+        kind = "rest" if descs and consumes_rest(("struct", tuple(descs))) else "plain"
         return TypeCase("Struct(" + ",".join(labels) + ")", p.Struct(*members), ("struct", tuple(descs)), kind=kind,
                         depth=1 + max([0]))
     return gen_structtag(p, rng, depth - 1, elems)
